@@ -72,7 +72,8 @@ def gen_world(t):
     worlds.normalise(t, spec) if t.chance(1, 2) else None
     spec["omen_prob"] = [["1", "0.5"], ["2", "0.25"]][: t.between(1, 2)]
     base = [b for b in spec["base"] if b[0] != "M"]
-    mp = t.choice(["0.4", "0.25", "0.5", "0.0625", "0.9"])
+    # (a coverage close to 1 gives the Markov structure a probability below 1e-4, which str(float) writes in exponent form)
+    mp = t.choice(["0.4", "0.25", "0.5", "0.0625", "0.9", "3.999999999998545e-05", "1e-05", "2.5e-07", "0.00011"])
     if mpos == "alone":
         base = [["M", "1.0"]]
     elif mpos == "first":
